@@ -146,6 +146,27 @@ def bounds_programs(first_id):
                    "%s |> %s ~|> %s" % (wrap("Tok::new()"), fmap("|t: Tok| t"), fmap("|t: Tok| { drop(t); 1u32 }"))]
             brs += [wrap("%du32" % (10 + i)) for i in range(rest)]
             T.append((kind, prel, ", ".join(brs), "(__r, rc.get(), acc)", "(%s, 2, 5)" % exp, "wide%d_not_send_mut_borrow_move_only" % n))
+    # ---- closures written by the user keep the capture rules of the caller's edition (this crate is edition 2021: a closure
+    # that reads one field of a struct does not capture the whole struct, so another field may stay mutably borrowed or be
+    # moved out meanwhile) — for a closure operand of every operator kind
+    for kind in ("join", "try_join"):
+        tr = kind.startswith("try_")
+        tup = (lambda *xs: "Some((%s))" % ", ".join(xs)) if tr else (lambda *xs: "(%s)" % ", ".join("Some(%s)" % x for x in xs))
+        ops = [("map", "|> |v| v + ctx.base", "6"), ("and_then", "=> |v| Some(v + ctx.base)", "6"), ("filter", "?> |v| *v > ctx.base", "5"),
+               ("inspect", "?? |_| { let _ = ctx.base; }", "5"), ("then", "-> |o: Option<u32>| o.map(|v| v + ctx.base)", "6"),
+               ("or_else", "<= || Some(ctx.base)", "5"), ("inspect_move", "?? move |_| { let _ = ctx.base; }", "5")]
+        for oname, op, val in ops:
+            T.append((kind, "struct Ctx { base: u32, log: [u32; 2], tok: Tok } let mut ctx = Ctx { base: 1, log: [0; 2], tok: Tok::new() }; let l = &mut ctx.log; let t = ctx.tok;",
+                      "Some(5u32) %s, Some(1u8)" % op, "{ l[0] = 9; drop(t); (__r, ctx.log[0]) }", "(%s, 9)" % tup(val, "1"), "disjoint_field_capture_%s" % oname))
+    # ---- a block operand inside a `>>>` group may build a closure that can only be called once (it hands on a move-only
+    # value): Option / Result combinators take FnOnce
+    for kind in ("join", "try_join"):
+        tr = kind.startswith("try_")
+        tup = (lambda *xs: "Some((%s))" % ", ".join(xs)) if tr else (lambda *xs: "(%s)" % ", ".join("Some(%s)" % x for x in xs))
+        for wname, wop in (("map", "|>"), ("and_then", "=>")):
+            inner = "|> { let t = Tok::new(); move |v: u32| { drop(t); v + 1 } }"
+            T.append((kind, "", "Some(Some(5u32)) %s >>> %s <<<, Some(1u8)" % (wop, inner), "__r",
+                      tup("6" if wop == "=>" else "Some(6)", "1"), "fnonce_block_closure_in_%s_group" % wname))
     T += caller_stack_matrix()
     fns, entries = [], []
     for i, (kind, prelude, body, result, expected, tag) in enumerate(T):
